@@ -110,7 +110,7 @@ var commonReal = []string{
 var commonStub = []string{
 	"wall clock/timers: testing/synctest fake clock",
 	"crypto/rand: seeded stream (cryptotest.SetGlobalRandom) in non-race builds",
-	"Symantec VIP user services: simulated at the wire (the real lib/vip builds the SOAP requests and evaluates the answers; its HTTPS POST is the seam), with approve / deny / in-progress / expired / unknown transaction states; LDAP wire, SMTP: simulated backends behind entry hooks; Okta authentication API: simulated service behind http.DefaultClient's transport (the real lib/authenticators/okta and /api/v0/okta* handlers run against it); OAuth2 identity provider for federated login: simulated token and userinfo endpoints behind the same transport (real golang.org/x/oauth2 exchange and the real login/callback handlers); AWS STS for cloud-role certificates: simulated GetCallerIdentity validation of presigned URLs behind the same transport (real aws_identity_cert issuer and presign caller)",
+	"Symantec VIP user services: simulated at the wire (the real lib/vip builds the SOAP requests and evaluates the answers; its HTTPS POST is the seam), with approve / deny / in-progress / expired / unknown transaction states; LDAP password checks: simulated at the wire (the TLS dial of lib/authutil is the seam; the real gopkg.in/ldap.v2 client speaks BER-encoded LDAP with a simulated server over an in-bubble pipe: bind accepted / invalid credentials / busy, unavailable, other; dial time-outs and refusals); LDAP group and attribute searches, SMTP: simulated backends behind entry hooks; Okta authentication API: simulated service behind http.DefaultClient's transport (the real lib/authenticators/okta and /api/v0/okta* handlers run against it); OAuth2 identity provider for federated login: simulated token and userinfo endpoints behind the same transport (real golang.org/x/oauth2 exchange and the real login/callback handlers); AWS STS for cloud-role certificates: simulated GetCallerIdentity validation of presigned URLs behind the same transport (real aws_identity_cert issuer and presign caller)",
 	"TCP/TLS transport: requests built in-process; VerifiedChains produced by x509.Verify against the server's ClientCAPool as crypto/tls would",
 	"external password helper (external_auth_command): a real child process (fixtures/authhelper.sh) whose fate the plan decides (exit 0/1, dies from a signal, other exit status)",
 	"post-unseal steps inlined in main() (CA pool completion, password-cache storage hookup) are re-implemented in the harness",
